@@ -182,5 +182,5 @@ ASSUMPTIONS = ["journal / evtx / accounting inputs are the files shipped in /rep
 
 def main(tier):
     n = 300 if tier == "quick" else 12000
-    cap = 400 if tier == "quick" else 7200
+    cap = 400 if tier == "quick" else 1500
     return engine.run_check(PROP, "c05", tier, n, cap, "exploration", RULE, ASSUMPTIONS)
